@@ -15,7 +15,9 @@ func (c *FuncCtx) sortOf(t types.Type) Sort {
 			return SBool
 		case u.Info()&types.IsInteger != 0:
 			if c.sc.mathInts {
-				return SInt
+				// one alias of Int per Go integer kind: the SMT sort is Int, but heap arrays stay
+				// separated by element type (a []uint32 cannot alias a []byte)
+				return mathIntSort(u)
 			}
 			return bvSort(intWidth(u))
 		case u.Info()&types.IsString != 0:
@@ -276,4 +278,16 @@ func (c *FuncCtx) zeroArray(et types.Type) Term {
 	es := c.sortOf(et)
 	as := arraySort(c.sc.idxSort(), es)
 	return Term{fmt.Sprintf("((as const %s) %s)", as, c.zero(et).S), as}
+}
+
+func mathIntSort(b *types.Basic) Sort {
+	w := intWidth(b)
+	if b.Info()&types.IsUnsigned != 0 {
+		return Sort(fmt.Sprintf("Int_u%d", w))
+	}
+	return Sort(fmt.Sprintf("Int_i%d", w))
+}
+
+func isMathIntSort(s Sort) bool {
+	return s == SInt || strings.HasPrefix(string(s), "Int_")
 }
